@@ -9,7 +9,7 @@ VERIF = os.path.dirname(os.path.dirname(os.path.abspath(__file__)))
 def run_one(m, unit):
     scratch = tempfile.mkdtemp(prefix="vx_mut_")
     try:
-        subprocess.run(["rsync", "-a", "/repo/src", scratch + "/"], check=True)
+        subprocess.run(["rsync", "-a", os.path.join(os.environ.get("VERIF_REPO", "/repo"), "src"), scratch + "/"], check=True)
         p = os.path.join(scratch, m["file"])
         s = open(p).read()
         if m["find"] not in s:
